@@ -111,7 +111,12 @@ def strategy_impl(draw, tier):
     case = {"kind": kind, "sub": sub, "chunks": chunks, "scheduler": draw(st.sampled_from(["synchronous", "threads"])),
             # calls with two array inputs (vector component + partner, two-input ufuncs): both lazy, or only one of them
             "lazy_mask": draw(st.sampled_from([[True, True], [True, True], [True, False], [False, True]])),
-            "two_inputs": draw(st.booleans())}
+            "two_inputs": draw(st.booleans()),
+            # the boundary_width mapping of a ufunc call: entries listed in signature order or the other way round, axes that
+            # need no padding named (with zeros) or left out
+            "bw_reversed": draw(st.booleans()), "bw_omit_zero": draw(st.booleans()),
+            # the second input of a two-input call may be chunked in its own way
+            "chunks2": {d: draw(compositions(L)) for d, L in dims.items()} if draw(st.integers(0, 2)) == 0 else None}
     if kind == "faces-vector":
         # used only when the decomposition has no links at all (a simple grid: there every dimension may be chunked)
         N = sub["N"]
@@ -153,7 +158,8 @@ def lazy_vs_eager(call, inputs, chunks, scheduler, allowed_notimpl, what, ctx=No
         return None  # the eager call itself is refused: nothing to compare (counted by caller)
     # lazy_mask: which of the inputs are dask-backed (default: all of them) - lazy inputs are accepted wherever in-memory ones
     # are, so also next to in-memory ones
-    lazy_in = [chunk(x, chunks) if (lazy_mask is None or lazy_mask[i]) else x for i, x in enumerate(inputs)]
+    per_input = chunks if isinstance(chunks, list) else [chunks] * len(inputs)   # a list gives every input its own chunking
+    lazy_in = [chunk(x, per_input[i]) if (lazy_mask is None or lazy_mask[i]) else x for i, x in enumerate(inputs)]
     counter = Counter()
     try:
         with dask.config.set(scheduler=counter):
@@ -235,7 +241,8 @@ def check(case, ctx):
     if kind == "faces-vector":
         sub = dict(sub, _spatial_chunks=case.get("spatial_chunks"), _lazy_mask=case.get("lazy_mask"))
     if kind == "ufunc":
-        sub = dict(sub, _lazy_mask=case.get("lazy_mask"), _two_inputs=case.get("two_inputs"))
+        sub = dict(sub, _lazy_mask=case.get("lazy_mask"), _two_inputs=case.get("two_inputs"), _chunks2=case.get("chunks2"),
+                   _bw_reversed=case.get("bw_reversed"), _bw_omit_zero=case.get("bw_omit_zero"))
     res = RUNNERS[kind](sub, chunks, case["scheduler"], classes, ctx)
     if res is None:
         classes.append("eager-refused")
@@ -383,6 +390,10 @@ def run_ufunc(sub, chunks, scheduler, classes, ctx):
     sig = "(" + ",".join(f"{d}:{sub['pos'][n]}" for d, n in zip(dummies, opax)) + ")"
     sig = f"{sig}->{sig}"
     bw = {d: tuple(sub["widths"][n]) for d, n in zip(dummies, opax)}
+    if sub.get("_bw_omit_zero") and any(w != (0, 0) for w in bw.values()):
+        bw = {d: w for d, w in bw.items() if w != (0, 0)}
+    if sub.get("_bw_reversed"):
+        bw = dict(reversed(list(bw.items())))
     f = window_sum([tuple(sub["widths"][n]) for n in opax])
     mode = sub["mode"]
     classes.append(f"ufunc:{mode}")
@@ -412,7 +423,25 @@ def run_ufunc(sub, chunks, scheduler, classes, ctx):
                                                boundary=sub["boundary"], fill_value=fv)
     if sub.get("_two_inputs"):
         # the same stencil on two inputs, added up; with dask='parallelized' either input may be the only lazy one
-        mask = (sub.get("_lazy_mask") or [True, True]) if mode == "parallelized" else [True, True]
+        mask = sub.get("_lazy_mask") or [True, True]
+        ch2 = dict(sub.get("_chunks2") or ch)
+        if mode == "parallelized":
+            for d in core:
+                ch2[d] = [sum(ch2[d])]
+        else:
+            small2 = any(min(ch2[d]) < max(sub["widths"][n]) for d, n in zip(core, opax) if len(ch2[d]) > 1)
+            if small2 and ctx is not None and ctx.known("C06-map-overlap-chunk-smaller-than-width"):
+                ctx.count_excluded("C06-map-overlap-chunk-smaller-than-width")
+                return "excluded"
+            # open finding: map_overlap declares the chunks of the result from the first argument alone and hands the raw
+            # arrays to dask.array.map_overlap - a second input that is chunked differently (along any dimension), or held
+            # in memory, is refused
+            differ = mask != [True, True] or any(list(ch2[d]) != list(ch[d]) for d in ch)
+            if differ:
+                classes.append("map-overlap-inputs-chunked-differently")
+                if ctx is not None and ctx.known("C06-map-overlap-inputs-chunked-differently"):
+                    ctx.count_excluded("C06-map-overlap-inputs-chunked-differently")
+                    return "excluded"
         classes.append("ufunc-two-inputs" + ("" if mask == [True, True] else "-one-lazy"))
         side = sig.split("->")[0]
         sig2 = f"{side},{side}->{side}"
@@ -422,7 +451,7 @@ def run_ufunc(sub, chunks, scheduler, classes, ctx):
                                                       boundary=sub["boundary"], fill_value=fv, **kw)
         eager2 = lambda x, y: grid.apply_as_grid_ufunc(f2, x, y, axis=[tuple(opax)] * 2, signature=sig2, boundary_width=bw,  # noqa: E731
                                                        boundary=sub["boundary"], fill_value=fv)
-        return lazy_vs_eager(call2, [da, da2], ch, scheduler, False, f"apply_as_grid_ufunc[{mode}, two inputs]", eager_call=eager2, lazy_mask=mask)
+        return lazy_vs_eager(call2, [da, da2], [ch, ch2], scheduler, False, f"apply_as_grid_ufunc[{mode}, two inputs]", eager_call=eager2, lazy_mask=mask)
     other = "extend" if sub["boundary"] != "extend" else "periodic"
     sib = lambda x: grid.apply_as_grid_ufunc(f, x, axis=[tuple(opax)], signature=sig, boundary_width=bw, boundary=other, **kw)  # noqa: E731
     return lazy_vs_eager(call, [da], ch, scheduler, False, f"apply_as_grid_ufunc[{mode}]", eager_call=eager, sibling=sib)
